@@ -77,6 +77,10 @@ def _parts(part):
     return []
 
 
+def is_src_leaf(x):
+    return (x[0] == "param" and x[2] in SOURCE_PARAMS) or (x[0] == "attr" and x[2] in ("contents", "metafiles"))
+
+
 def who_may_write(ctx, flow, effs):
     n = 0
     for e, chain, prec in effs:
@@ -102,6 +106,12 @@ def who_may_write(ctx, flow, effs):
                 # records that hold a source next to a destination component travel through a container whose positions the
                 # origin terms merge: the written path reaches the destination argument, the source may be the other field
                 ctx.undecided("C14.1", e.fn, "%s: the written path is selected from records that also carry %s; the origin terms do not keep the fields apart" % (e.prim, ", ".join(src)),
+                              norm(e.site) + " :: " + norm(a), path=where)
+            elif src and dst and any(x[0] == "kelem" and len(x) > 2 and isinstance(x[1], frozenset) and isinstance(x[2], frozenset)
+                                     and any(y[0] == "ext" and y[1] == "pyben.load" for y in walk_terms(x[1])) and any(is_src_leaf(y) for y in walk_terms(x[2])) for x in walk_terms(t)):
+                # both the destination argument and a search directory reach the written path, the latter through a mapping from
+                # paths the metafile assigns to the sources selected for them: keys and values are not kept apart by the origin terms
+                ctx.undecided("C14.1", e.fn, "%s: the written path is reached by the destination argument and by %s; the origin terms do not say which component comes from where" % (e.prim, ", ".join(src)),
                               norm(e.site) + " :: " + norm(a), path=where)
             elif src:
                 ctx.violated("C14.1", e.fn, "%s writes to a path derived from %s: the search directories / metafiles must only be read" % (e.prim, ", ".join(src)),
@@ -277,7 +287,15 @@ def verified_source(ctx, flow, copyfns, reach):
                 # a field of a candidate record (candidate.path / candidate[0]): the record is the candidate variable
                 s = s.value
             if not isinstance(s, ast.Name):
-                ctx.violated("C14.3", caller, "the copy source %s is not a candidate variable of a search loop" % norm(s), call)
+                base_ = s
+                while isinstance(base_, (ast.Attribute, ast.Subscript)):
+                    base_ = base_.value
+                if isinstance(base_, ast.Name) and (base_.id == caller.self_name or base_.id in caller.params):
+                    # read out of the state of an object / a parameter: where the candidate was put there, and whether it had been
+                    # verified, is decided elsewhere
+                    ctx.undecided("C14.3", caller, "the copy source `%s` is read from object state or a parameter; where the candidate was selected was not followed" % norm(s), call)
+                else:
+                    ctx.violated("C14.3", caller, "the copy source %s is not a candidate variable of a search loop" % norm(s), call)
                 continue
             loop, idx, sibs = candidate_loop(ctx, caller, call, s.id)
             made = _record_sites(ctx, flow, caller, loop, idx) if loop is not None and idx is not None else None
